@@ -2,6 +2,7 @@ import KeepVerif.Proofs.C04Sqrt
 import KeepVerif.Proofs.C04Field
 import KeepVerif.Proofs.C04D2
 import KeepVerif.Proofs.C04G2
+import KeepVerif.Proofs.Primes
 /-!
 # C04 — BN254 point encoding round-trips and decoding always terminates
 
@@ -381,6 +382,26 @@ theorem g2_roundtrip_fails_zero_component (x r : Fp2) (hrx : r.x = 0) :
   | none =>
     have := firstErr_none _ h (P - r.x) (by simp)
     omega
+
+/-! ## Assumption A-field discharged: `bn256.P` (as extracted from the source) is prime -/
+
+/-- the field modulus extracted from the source is prime (Pratt certificate checked by the kernel,
+    `Proofs/Primes.lean`); if the constant in the source changes this stops checking. -/
+theorem P_prime : Nat.Prime P := Primes.fieldP_prime
+
+/-- the group order extracted from the source is prime. -/
+theorem R_prime : Nat.Prime R := Primes.groupOrder_prime
+
+/-- **G1 round trip, no hypothesis on `P`.** -/
+theorem g1_roundtrip_unconditional (x y : Nat) (hx : x < P) (hy : y < P)
+    (hc : onCurveG1 x y = true) : decompressG1 (compressG1 x y) = .ok (x, y) :=
+  @g1_roundtrip ⟨P_prime⟩ x y hx hy hc
+
+/-- **G2 round trip, no hypothesis on `P`.** -/
+theorem g2_roundtrip_unconditional (x y : Fp2) (hx : Reduced x) (hy : Reduced y)
+    (hin : inG2 x y = true) (hyx : y.x ≠ 0) (hyy : y.y ≠ 0) :
+    decompressG2 (compressG2 x y).1 (compressG2 x y).2 = .ok (x, y) :=
+  @g2_roundtrip ⟨P_prime⟩ x y hx hy hin hyx hyy
 
 /-- coordinates of the G2 generator (`twistGen`): x = g2x + g2xi·i, y = g2y + g2yi·i. -/
 def g2xi : Nat := 11559732032986387107991004021392285783925812861821192530917403151452391805634
